@@ -18,6 +18,9 @@ func main() {
 	}
 	repo := flag.String("repo", "/repo", "repository")
 	hroot := flag.String("harness", "/verif/harness", "harness root (overlay)")
+	if r := os.Getenv("VERIF_ROOT"); r != "" {
+		*hroot = r + "/harness"
+	}
 	pkgs := flag.String("pkgs", "", "comma separated package patterns")
 	entry := flag.String("entry", "", "harness entry function")
 	workers := flag.Int("workers", 8, "workers")
